@@ -176,7 +176,7 @@ Section Core.
 
   Lemma idx_cell tr pos : bound tr -> Z.land pos (qmask q) = cell pos.
   Proof.
-    intros Hb. rewrite (qmask_val k Hk q Hq (bound_cap Hb)). apply land_mask.
+    intros Hb. rewrite (qmask_val k Hk q Hq (bound_cap tr Hb)). apply (land_mask k Hk).
   Qed.
 
   Definition view (a : Aux) (t : nat) : phase * LX := (ph a t, xview (ext a) t).
@@ -223,7 +223,7 @@ Section Core.
       destruct (Nat.eq_dec u t) as [->|N1]; [rewrite updp_same in H1; rewrite H1 in Hu'; contradiction|].
       destruct (Nat.eq_dec u' t) as [->|N2]; [rewrite updp_same in H2; rewrite H2 in Hu'; contradiction|].
       rewrite updp_other in H1, H2 by auto. eapply RuD; eauto.
-    - intros tc u Hs Hc. destruct (Nat.eq_dec u t) as [->|N].
+    - intros tc u Hsc Hc. destruct (Nat.eq_dec u t) as [->|N].
       + rewrite updp_same in Hc. eapply Rsc; eauto.
       + rewrite updp_other in Hc by auto. eapply Rsc; eauto.
     - intros u Hf. destruct (Nat.eq_dec u t) as [->|N].
@@ -262,7 +262,7 @@ Section Core.
       destruct (Nat.eq_dec u t) as [->|N1]; [rewrite updp_same in H1; rewrite H1 in Hu'; contradiction|].
       destruct (Nat.eq_dec u' t) as [->|N2]; [rewrite updp_same in H2; rewrite H2 in Hu'; contradiction|].
       rewrite updp_other in H1, H2 by auto. eapply RuD; eauto.
-    - intros tc u Hs Hc. destruct (Nat.eq_dec u t) as [->|N].
+    - intros tc u Hsc Hc. destruct (Nat.eq_dec u t) as [->|N].
       + rewrite updp_same in Hc. eapply Rsc; eauto.
       + rewrite updp_other in Hc by auto. eapply Rsc; eauto.
     - intros u Hf. destruct (Nat.eq_dec u t) as [->|N].
@@ -284,7 +284,6 @@ Section Core.
     - rewrite nclaims_app.
       replace (nclaims (Conc.tag t (acc kk obj_cnt ok rd wr))) with 0; [lia|].
       destruct kk, ok; reflexivity.
-    - intros u. specialize (Rph u). destruct (ph a u); exact Rph.
   Qed.
 
   (** ** E3 succeeds: the enqueuer claims position posEnq and writes its value into the cell; this is the
@@ -297,12 +296,12 @@ Section Core.
             (tr ++ Conc.tag t (acc KCas obj_posE true (posE g) (uadd u64 pos 1))).
   Proof.
     intros R Hp HE Hb. pose proof (bound_app _ _ Hb) as Hb0.
-    destruct (ri_bounds R Hb0) as (B1 & B2 & B3 & B4).
+    destruct (ri_bounds g a tr R Hb0) as (B1 & B2 & B3 & B4).
     assert (Hb1 : posE g + 1 + cap < B62).
     { unfold bound in Hb. rewrite nclaims_app in Hb. pose proof (ri_claims R).
       change (nclaims (Conc.tag t (acc KCas obj_posE true (posE g) (uadd u64 pos 1)))) with 1 in Hb. lia. }
     pose proof cap2 as C2.
-    rewrite (idx_cell pos Hb0). rewrite uadd1 by lia.
+    rewrite (idx_cell tr pos Hb0). rewrite uadd1 by lia.
     destruct R as [Rpos Rcl Rlen Rcont Rused Rfree Rseqb Rph RuE RuD Rsc Rfr Rext].
     pose proof (Rph t) as Pt. rewrite Hp in Pt. cbn [phase_ok] in Pt. destruct Pt as [Pt1 Pt2].
     subst pos.
@@ -336,9 +335,9 @@ Section Core.
       exists t0, pk, v0. rewrite updp_other; auto. intros ->. rewrite H0 in Hp. discriminate.
     - intros p. specialize (Rseqb p). lia.
     - intros u. destruct (Nat.eq_dec u t) as [->|N].
-      + rewrite updp_same. cbn [phase_ok posE posD seqs]. lia.
+      + rewrite updp_same. cbn [phase_ok posE posD seqs datas set_data set_posE set_posD set_seq]. lia.
       + rewrite updp_other by auto. specialize (Rph u).
-        destruct (ph a u) eqn:Eu; cbn [phase_ok posE posD seqs] in *; try lia; auto.
+        destruct (ph a u) eqn:Eu; cbn [phase_ok posE posD seqs datas set_data set_posE set_posD set_seq] in *; try lia; auto.
         destruct Rph as (A1 & A2 & A3). split; [lia|]. split; [|auto].
         (* a dequeuer still holding the cell of posEnq would contradict seq = posEnq *)
         destruct (Z.eq_dec (posE g) (pos + cap)) as [E|E]; [|lia].
@@ -354,7 +353,7 @@ Section Core.
       destruct (Nat.eq_dec u t) as [->|N1]; [rewrite updp_same in H1; discriminate|].
       destruct (Nat.eq_dec u' t) as [->|N2]; [rewrite updp_same in H2; discriminate|].
       rewrite updp_other in H1, H2 by auto. eapply RuD; eauto.
-    - intros tc u Hs Hc. destruct (Nat.eq_dec u t) as [->|N].
+    - intros tc u Hsc Hc. destruct (Nat.eq_dec u t) as [->|N].
       + rewrite updp_same in Hc. contradiction.
       + rewrite updp_other in Hc by auto. eapply Rsc; eauto.
     - intros u Hf. destruct (Nat.eq_dec u t) as [->|N].
@@ -379,10 +378,10 @@ Section Core.
             (tr ++ Conc.tag t (acc KSt (obj_seq (Z.land pos (qmask q))) true (uadd u64 pos 1) (uadd u64 pos 1))).
   Proof.
     intros R Hp Hb. pose proof (bound_app _ _ Hb) as Hb0.
-    destruct (ri_bounds R Hb0) as (B1 & B2 & B3 & B4). pose proof cap2 as C2.
+    destruct (ri_bounds g a tr R Hb0) as (B1 & B2 & B3 & B4). pose proof cap2 as C2.
     destruct R as [Rpos Rcl Rlen Rcont Rused Rfree Rseqb Rph RuE RuD Rsc Rfr Rext].
     pose proof (Rph t) as Pt. rewrite Hp in Pt. cbn [phase_ok] in Pt. destruct Pt as [Pt1 Pt2].
-    rewrite (idx_cell pos Hb0). rewrite uadd1 by lia.
+    rewrite (idx_cell tr pos Hb0). rewrite uadd1 by lia.
     assert (Hne : forall p, posD g <= p < posD g + cap -> p <> pos -> cell p <> cell pos).
     { intros p Hp' N. apply (cell_neq k Hk); auto. fold cap. lia. }
     constructor; cbn [posE posD seqs datas set_seq absq ph ext set_ph]; auto.
@@ -400,7 +399,7 @@ Section Core.
     - intros u. destruct (Nat.eq_dec u t) as [->|N].
       + rewrite updp_same. exact I.
       + rewrite updp_other by auto. pose proof (Rph u) as P.
-        destruct (ph a u) eqn:Eu; cbn [phase_ok posE posD seqs set_seq] in *; auto.
+        destruct (ph a u) eqn:Eu; cbn [phase_ok posE posD seqs datas set_data set_posE set_posD set_seq] in *; auto.
         * (* EnqSeen *) destruct P as [P1 P2]. split; auto. unfold upd.
           destruct (Z.eqb_spec (cell pos0) (cell pos)) as [E|E]; [rewrite E in P2; lia|auto].
         * (* EnqClaimed by another thread *) destruct P as [P1 P2]. split; auto. unfold upd.
@@ -420,7 +419,7 @@ Section Core.
       destruct (Nat.eq_dec u t) as [->|N1]; [rewrite updp_same in H1; discriminate|].
       destruct (Nat.eq_dec u' t) as [->|N2]; [rewrite updp_same in H2; discriminate|].
       rewrite updp_other in H1, H2 by auto. eapply RuD; eauto.
-    - intros tc u Hs Hc. destruct (Nat.eq_dec u t) as [->|N].
+    - intros tc u Hsc Hc. destruct (Nat.eq_dec u t) as [->|N].
       + rewrite updp_same in Hc. contradiction.
       + rewrite updp_other in Hc by auto. eapply Rsc; eauto.
     - intros u Hf. destruct (Nat.eq_dec u t) as [->|N].
@@ -440,8 +439,8 @@ Section Core.
             (tr ++ Conc.tag t (acc KCas obj_posD true (posD g) (uadd u64 pos 1))).
   Proof.
     intros R Hp HD Hb. pose proof (bound_app _ _ Hb) as Hb0.
-    destruct (ri_bounds R Hb0) as (B1 & B2 & B3 & B4). pose proof cap2 as C2.
-    rewrite (idx_cell pos Hb0). rewrite uadd1 by lia.
+    destruct (ri_bounds g a tr R Hb0) as (B1 & B2 & B3 & B4). pose proof cap2 as C2.
+    rewrite (idx_cell tr pos Hb0). rewrite uadd1 by lia.
     destruct R as [Rpos Rcl Rlen Rcont Rused Rfree Rseqb Rph RuE RuD Rsc Rfr Rext].
     pose proof (Rph t) as Pt. rewrite Hp in Pt. cbn [phase_ok] in Pt. destruct Pt as [Pt1 Pt2].
     subst pos.
@@ -460,19 +459,20 @@ Section Core.
       change (nclaims (Conc.tag t (acc KCas obj_posD true (posD g) (posD g + 1)))) with 0. lia.
     - cbn [length] in Rlen. lia.
     - intros i Hi. pose proof (Rcont (S i) ltac:(cbn [length]; lia)) as H. cbn [nth_error] in H.
-      rewrite H. do 2 f_equal. lia.
+      rewrite H. replace (posD g + 1 + Z.of_nat i) with (posD g + Z.of_nat (S i)) by lia. reflexivity.
     - intros p Hp'. destruct (Rused p ltac:(lia)) as [H|[H (t0 & v0 & H0)]]; [left; auto|right; split; auto].
       exists t0, v0. rewrite updp_other; auto. intros ->. rewrite H0 in Hp. discriminate.
     - intros p Hp'. destruct (Z.eq_dec p (posD g + cap)) as [->|N].
-      + right. rewrite (cell_add_cap k (posD g)). split; [lia|].
+      + right. assert (Hc : cell (posD g + cap) = cell (posD g)) by apply (cell_add_cap k).
+        rewrite Hc. split; [lia|].
         exists t, pk, (datas g (cell (posD g))). rewrite updp_same. f_equal. lia.
       + destruct (Rfree p ltac:(lia)) as [H|[H (t0 & pk0 & v0 & H0)]]; [left; auto|right; split; auto].
         exists t0, pk0, v0. rewrite updp_other; auto. intros ->. rewrite H0 in Hp. discriminate.
     - exact Rseqb.
     - intros u. destruct (Nat.eq_dec u t) as [->|N].
-      + rewrite updp_same. cbn [phase_ok posE posD seqs]. lia.
+      + rewrite updp_same. cbn [phase_ok posE posD seqs datas set_data set_posE set_posD set_seq]. lia.
       + rewrite updp_other by auto. specialize (Rph u).
-        destruct (ph a u) eqn:Eu; cbn [phase_ok posE posD seqs] in *; try lia; auto.
+        destruct (ph a u) eqn:Eu; cbn [phase_ok posE posD seqs datas set_data set_posE set_posD set_seq] in *; try lia; auto.
         * (* EnqClaimed: its cell is not published, so it is not the cell just dequeued *)
           destruct Rph as [A1 A2]. split; auto.
           destruct (Z.eq_dec pos (posD g)) as [->|E]; lia.
@@ -490,7 +490,7 @@ Section Core.
       + rewrite updp_same in H2. rewrite updp_other in H1 by auto. inversion H2; subst.
         pose proof (Rph u) as P. rewrite H1 in P. cbn [phase_ok] in P. lia.
       + rewrite updp_other in H1, H2 by auto. eapply RuD; eauto.
-    - intros tc u Hs Hc. destruct (Nat.eq_dec u t) as [->|N].
+    - intros tc u Hsc Hc. destruct (Nat.eq_dec u t) as [->|N].
       + eapply Rsc; eauto. rewrite Hp. exact I.
       + rewrite updp_other in Hc by auto. eapply Rsc; eauto.
     - intros u Hf. destruct (Nat.eq_dec u t) as [->|N].
@@ -504,6 +504,532 @@ Section Core.
       rewrite E1, E2 in E. eapply Ext_ext; [|exact E].
       intros u. rewrite stat_updp. unfold Lin.upd. destruct (Nat.eqb u t); auto.
       cbn [stat_of]. now rewrite <- Hx.
+  Qed.
+
+
+  (** ** D6: the dequeuer releases its cell for the next lap *)
+  Lemma tr_deq_publish g a tr t pk pos v :
+    RealInv g a tr -> ph a t = DeqClaimed pk pos v ->
+    bound (tr ++ Conc.tag t (acc KSt (obj_seq (Z.land pos (qmask q))) true
+                               (uadd u64 (uadd u64 pos (qmask q)) 1) (uadd u64 (uadd u64 pos (qmask q)) 1))) ->
+    RealInv (set_seq g (Z.land pos (qmask q)) (uadd u64 (uadd u64 pos (qmask q)) 1))
+            (set_ph a t (DeqRet pk (Some v)))
+            (tr ++ Conc.tag t (acc KSt (obj_seq (Z.land pos (qmask q))) true
+                               (uadd u64 (uadd u64 pos (qmask q)) 1) (uadd u64 (uadd u64 pos (qmask q)) 1))).
+  Proof.
+    intros R Hp Hb. pose proof (bound_app _ _ Hb) as Hb0.
+    destruct (ri_bounds g a tr R Hb0) as (B1 & B2 & B3 & B4). pose proof cap2 as C2.
+    destruct R as [Rpos Rcl Rlen Rcont Rused Rfree Rseqb Rph RuE RuD Rsc Rfr Rext].
+    pose proof (Rph t) as Pt. rewrite Hp in Pt. cbn [phase_ok] in Pt. destruct Pt as (Pt1 & Pt2 & Pt3).
+    rewrite (idx_cell tr pos Hb0).
+    rewrite (qmask_val k Hk q Hq (bound_cap tr Hb0)). fold cap.
+    rewrite (uadd_small pos (cap - 1)) by lia. rewrite uadd1 by lia.
+    replace (pos + (cap - 1) + 1) with (pos + cap) by lia.
+    assert (Hc : cell (pos + cap) = cell pos) by apply (cell_add_cap k).
+    assert (Hne : forall p, posD g <= p < posD g + cap -> p <> pos + cap -> cell p <> cell pos).
+    { intros p Hp' N. rewrite <- Hc. apply (cell_neq k Hk); auto. fold cap. lia. }
+    constructor; cbn [posE posD seqs datas set_seq absq ph ext set_ph]; auto.
+    - rewrite nclaims_app.
+      change (nclaims (Conc.tag t (acc KSt (obj_seq (cell pos)) true (pos + cap) (pos + cap)))) with 0. lia.
+    - intros p Hp'. unfold upd. destruct (Z.eqb_spec (cell p) (cell pos)) as [E|E].
+      + exfalso. revert E. apply Hne; lia.
+      + destruct (Rused p Hp') as [H|[H (t0 & v0 & H0)]]; [left; auto|right; split; auto].
+        exists t0, v0. rewrite updp_other; auto. intros ->. rewrite H0 in Hp. discriminate.
+    - intros p Hp'. unfold upd. destruct (Z.eqb_spec (cell p) (cell pos)) as [E|E].
+      + left. destruct (Z.eq_dec p (pos + cap)) as [->|N]; auto. exfalso. revert E. apply Hne; lia.
+      + destruct (Rfree p Hp') as [H|[H (t0 & pk0 & v0 & H0)]]; [left; auto|right; split; auto].
+        exists t0, pk0, v0. rewrite updp_other; auto. intros ->. rewrite H0 in Hp. inversion Hp; subst.
+        apply E. rewrite <- Hc. f_equal. lia.
+    - intros p. unfold upd. destruct (Z.eqb_spec (cell p) (cell pos)); [lia|apply Rseqb].
+    - intros u. destruct (Nat.eq_dec u t) as [->|N].
+      + rewrite updp_same. exact I.
+      + rewrite updp_other by auto. pose proof (Rph u) as P.
+        destruct (ph a u) eqn:Eu; cbn [phase_ok posE posD seqs datas set_data set_posE set_posD set_seq] in *; auto.
+        * destruct P as [P1 P2]. split; auto. unfold upd.
+          destruct (Z.eqb_spec (cell pos0) (cell pos)) as [E|E]; [rewrite E in P2; lia|auto].
+        * destruct P as [P1 P2]. split; auto. unfold upd.
+          destruct (Z.eqb_spec (cell pos0) (cell pos)) as [E|E]; auto.
+          exfalso. revert E. apply Hne; lia.
+        * destruct P as [P1 P2]. split; auto. unfold upd.
+          destruct (Z.eqb_spec (cell pos0) (cell pos)) as [E|E]; [rewrite E in P2; lia|auto].
+        * destruct P as (P1 & P2 & P3). split; auto. split; auto. unfold upd.
+          destruct (Z.eqb_spec (cell pos0) (cell pos)) as [E|E]; auto.
+          exfalso. assert (pos0 = pos) by (apply (cell_inj k Hk); auto; fold cap; lia). subst pos0.
+          apply N. eapply RuD; eauto.
+    - intros u u' v1 v2 p H1 H2.
+      destruct (Nat.eq_dec u t) as [->|N1]; [rewrite updp_same in H1; discriminate|].
+      destruct (Nat.eq_dec u' t) as [->|N2]; [rewrite updp_same in H2; discriminate|].
+      rewrite updp_other in H1, H2 by auto. eapply RuE; eauto.
+    - intros u u' pk1 pk2 v1 v2 p H1 H2.
+      destruct (Nat.eq_dec u t) as [->|N1]; [rewrite updp_same in H1; discriminate|].
+      destruct (Nat.eq_dec u' t) as [->|N2]; [rewrite updp_same in H2; discriminate|].
+      rewrite updp_other in H1, H2 by auto. eapply RuD; eauto.
+    - intros tc u Hsc Hc'. destruct (Nat.eq_dec u t) as [->|N].
+      + eapply Rsc; eauto. rewrite Hp. exact I.
+      + rewrite updp_other in Hc' by auto. eapply Rsc; eauto.
+    - intros u Hf. destruct (Nat.eq_dec u t) as [->|N].
+      + rewrite updp_same in Hf. contradiction.
+      + rewrite updp_other in Hf by auto. apply Rfr; auto.
+    - apply Ext_acc. eapply Ext_ext; [|exact Rext].
+      intros u. cbn. destruct (Nat.eq_dec u t) as [->|N]; [rewrite updp_same, Hp; auto|rewrite updp_other; auto].
+  Qed.
+
+  (** ** client-level steps (operation invoke / response events emitted by the wrappers of an instance):
+         the shared state is untouched, the phase moves between phases without obligations, the instance
+         supplies its extension for the new status map and trace *)
+  Lemma ri_client g a tr t p' x' es :
+    RealInv g a tr ->
+    nclaims (Conc.tag t es) = 0 ->
+    phase_ok g p' -> unclaimed (ph a t) -> unclaimed p' ->
+    (consumer p' -> forall tc, sc = Some tc -> t = tc) -> (is_front p' -> sc = Some t) ->
+    Ext (absq a) (fun u => stat_of (updp (ph a) t p' u)) x' (tr ++ Conc.tag t es) ->
+    RealInv g (mkAux (absq a) (updp (ph a) t p') x') (tr ++ Conc.tag t es).
+  Proof.
+    intros R Hn Hok Hu Hu' Hco Hfr HE.
+    destruct R as [Rpos Rcl Rlen Rcont Rused Rfree Rseqb Rph RuE RuD Rsc Rfr Rext].
+    constructor; cbn [absq ph ext]; auto.
+    - rewrite nclaims_app, Hn. lia.
+    - intros p Hp. destruct (Rused p Hp) as [H|[H (t0 & v & H0)]]; [left; auto|right; split; auto].
+      exists t0, v. rewrite updp_other; auto. intros ->. rewrite H0 in Hu. exact Hu.
+    - intros p Hp. destruct (Rfree p Hp) as [H|[H (t0 & pk & v & H0)]]; [left; auto|right; split; auto].
+      exists t0, pk, v. rewrite updp_other; auto. intros ->. rewrite H0 in Hu. exact Hu.
+    - intros u. destruct (Nat.eq_dec u t) as [->|N]; [rewrite updp_same; auto|rewrite updp_other; auto].
+    - intros u u' v v' p H1 H2.
+      destruct (Nat.eq_dec u t) as [->|N1]; [rewrite updp_same in H1; rewrite H1 in Hu'; contradiction|].
+      destruct (Nat.eq_dec u' t) as [->|N2]; [rewrite updp_same in H2; rewrite H2 in Hu'; contradiction|].
+      rewrite updp_other in H1, H2 by auto. eapply RuE; eauto.
+    - intros u u' pk pk' v v' p H1 H2.
+      destruct (Nat.eq_dec u t) as [->|N1]; [rewrite updp_same in H1; rewrite H1 in Hu'; contradiction|].
+      destruct (Nat.eq_dec u' t) as [->|N2]; [rewrite updp_same in H2; rewrite H2 in Hu'; contradiction|].
+      rewrite updp_other in H1, H2 by auto. eapply RuD; eauto.
+    - intros tc u Hs Hc. destruct (Nat.eq_dec u t) as [->|N].
+      + rewrite updp_same in Hc. auto.
+      + rewrite updp_other in Hc by auto. eapply Rsc; eauto.
+    - intros u Hf. destruct (Nat.eq_dec u t) as [->|N].
+      + rewrite updp_same in Hf. auto.
+      + rewrite updp_other in Hf by auto. apply Rfr; auto.
+  Qed.
+
+  (** ** the proof rule instantiated *)
+  Notation safe := (@Conc.safe G V ev Aux (phase * LX) view Inv).
+
+  Lemma view_inv a t p lx : view a t = (p, lx) -> ph a t = p /\ xview (ext a) t = lx.
+  Proof. unfold view. intros H. inversion H. auto. Qed.
+
+  (** a step that does not change the shared state: the thread moves to phase [p'] *)
+  Lemma step_same g a tr t p p' lx kk o ok rd wr :
+    Inv g a tr -> view a t = (p, lx) ->
+    nclaims (Conc.tag t (acc kk o ok rd wr)) = 0 ->
+    unclaimed p -> unclaimed p' -> stat_of p' = stat_of p ->
+    (consumer p' -> consumer p) -> (is_front p' -> is_front p) ->
+    (RealInv g a tr -> bound tr -> phase_ok g p') ->
+    Inv g (set_ph a t p') (tr ++ Conc.tag t (acc kk o ok rd wr)) /\
+    Conc.frame view t a (set_ph a t p') /\ view (set_ph a t p') t = (p', lx).
+  Proof.
+    intros Hi Hv Hn Hu Hu' Hst Hco Hfr Hok. destruct (view_inv _ _ _ _ Hv) as [Hp Hx].
+    split; [|split; [apply frame_set_ph|rewrite view_set_ph, Hx; reflexivity]].
+    intros Hb. pose proof (bound_app _ _ Hb) as Hb0. specialize (Hi Hb0).
+    apply ri_phase; auto; rewrite Hp; auto.
+  Qed.
+
+  (** a linearization point that changes neither the shared state nor the abstract queue *)
+  Lemma step_lp g a tr t p p' o lx kk ob ok rd wr :
+    Inv g a tr -> view a t = (p, lx) ->
+    nclaims (Conc.tag t (acc kk ob ok rd wr)) = 0 ->
+    unclaimed p -> unclaimed p' -> stat_of p = sPend o ->
+    (consumer p' -> consumer p) -> (is_front p' -> is_front p) ->
+    (RealInv g a tr -> bound tr ->
+       phase_ok g p' /\ fst (vq_step capn (absq a) o) = absq a /\
+       stat_of p' = sLin o (snd (vq_step capn (absq a) o))) ->
+    Inv g (lin_ph a t (absq a) p') (tr ++ Conc.tag t (acc kk ob ok rd wr)) /\
+    Conc.frame view t a (lin_ph a t (absq a) p') /\ view (lin_ph a t (absq a) p') t = (p', lx).
+  Proof.
+    intros Hi Hv Hn Hu Hu' Hst Hco Hfr Hok. destruct (view_inv _ _ _ _ Hv) as [Hp Hx].
+    split; [|split; [apply frame_lin_ph|rewrite view_lin_ph, Hx; reflexivity]].
+    intros Hb. pose proof (bound_app _ _ Hb) as Hb0. specialize (Hi Hb0).
+    destruct (Hok Hi Hb0) as (K1 & K2 & K3).
+    apply ri_lp with (o := o); auto; rewrite Hp; auto.
+  Qed.
+
+  Definition Qenq (v : Z) (lx : LX) : outcome bool -> phase * LX -> Prop :=
+    fun r l => match r with
+               | Done true => l = (EnqDone v, lx)
+               | Done false => l = (EnqFail v, lx)
+               | OutOfFuel => True
+               | UB => l = (PUB, lx)
+               end.
+
+  Definition Qdeq (pk : bool) (lx : LX) : outcome (option Z) -> phase * LX -> Prop :=
+    fun r l => match r with
+               | Done x => l = (DeqRet pk x, lx)
+               | OutOfFuel => True
+               | UB => l = (PUB, lx)
+               end.
+
+  Definition Qfront (lx : LX) : outcome (option Z) -> phase * LX -> Prop :=
+    fun r l => match r with
+               | Done x => l = (FrontRet x, lx)
+               | OutOfFuel => True
+               | UB => l = (PUB, lx)
+               end.
+
+  Definition Qempty (lx : LX) : outcome bool -> phase * LX -> Prop :=
+    fun r l => match r with
+               | Done _ => exists pos, l = (EmPos pos, lx)
+               | OutOfFuel => True
+               | UB => l = (PUB, lx)
+               end.
+
+  Lemma safe_enq_finish t v pos lx :
+    safe t (enq_finish q (Z.land pos (qmask q)) pos) (EnqClaimed v pos, lx) (Qenq v lx).
+  Proof.
+    unfold enq_finish. cbn [Conc.safe]. intros g a tr Hi Hv. destruct (view_inv _ _ _ _ Hv) as [Hp Hx].
+    cbn [a_st_seq fst snd].
+    exists (set_ph a t (EnqDone v)). split; [|split; [apply frame_set_ph|]].
+    - intros Hb. apply tr_enq_publish; auto. apply Hi. eapply bound_app; eauto.
+    - rewrite view_set_ph, Hx. destruct (qcount q).
+      + cbn [Conc.safe]. intros g2 a2 tr2 Hi2 Hv2. cbn [a_faa_cnt fst snd]. exists a2. split; [|split].
+        * intros Hb. apply ri_cnt. apply Hi2. eapply bound_app; eauto.
+        * intros ? ?; reflexivity.
+        * cbn. exact Hv2.
+      + cbn. reflexivity.
+  Qed.
+
+  Lemma safe_deq_finish t pk pos v lx :
+    safe t (deq_finish q (Z.land pos (qmask q)) pos v) (DeqClaimed pk pos v, lx) (Qdeq pk lx).
+  Proof.
+    unfold deq_finish. cbn [Conc.safe]. intros g a tr Hi Hv. destruct (view_inv _ _ _ _ Hv) as [Hp Hx].
+    cbn [a_st_seq fst snd].
+    exists (set_ph a t (DeqRet pk (Some v))). split; [|split; [apply frame_set_ph|]].
+    - intros Hb. apply tr_deq_publish; auto. apply Hi. eapply bound_app; eauto.
+    - rewrite view_set_ph, Hx. destruct (qcount q).
+      + cbn [Conc.safe]. intros g2 a2 tr2 Hi2 Hv2. cbn [a_fas_cnt fst snd]. exists a2. split; [|split].
+        * intros Hb. apply ri_cnt. apply Hi2. eapply bound_app; eauto.
+        * intros ? ?; reflexivity.
+        * cbn. exact Hv2.
+      + cbn. reflexivity.
+  Qed.
+
+
+  Ltac use_step S :=
+    let I1 := fresh "I1" in let I2 := fresh "I2" in let I3 := fresh "I3" in let Hok := fresh "Hok" in
+    match type of S with
+    | ?A -> _ =>
+        assert (Hok : A);
+        [clear S
+        |specialize (S Hok); destruct S as (I1 & I2 & I3); eexists;
+         split; [exact I1|split; [exact I2|rewrite I3; clear I1 I2 I3 Hok]]]
+    end.
+
+  (** facts about a stale enqueue position and the sequence read through it, under the bound *)
+  Lemma enq_facts g a tr t v pos lx :
+    Inv g a tr -> view a t = (EnqPos v pos, lx) -> bound tr ->
+    RealInv g a tr /\ 0 <= pos <= posE g /\ posE g + cap < B62 /\ 0 <= posD g <= posE g /\ posE g <= posD g + cap /\
+    0 <= seqs g (Z.land pos (qmask q)) <= posE g + cap /\ Z.land pos (qmask q) = cell pos.
+  Proof.
+    intros Hi Hv Hb. pose proof (Hi Hb) as R. destruct (view_inv _ _ _ _ Hv) as [Hp Hx].
+    destruct (ri_bounds g a tr R Hb) as (B1 & B2 & B3 & B4).
+    pose proof (ri_ph R t) as P. rewrite Hp in P. cbn [phase_ok] in P.
+    rewrite (idx_cell tr pos Hb). pose proof (ri_seqb g a tr R pos). split; [exact R|]. repeat split; try lia.
+  Qed.
+
+  Lemma deq_facts g a tr t pos lx p :
+    Inv g a tr -> view a t = (p, lx) -> (p = DeqPos false pos \/ p = DeqPos true pos \/ p = FrontPos pos \/ p = EmPos pos) ->
+    bound tr ->
+    RealInv g a tr /\ 0 <= pos <= posD g /\ posE g + cap < B62 /\ 0 <= posD g <= posE g /\ posE g <= posD g + cap /\
+    0 <= seqs g (Z.land pos (qmask q)) <= posE g + cap /\ Z.land pos (qmask q) = cell pos.
+  Proof.
+    intros Hi Hv Hc Hb. pose proof (Hi Hb) as R. destruct (view_inv _ _ _ _ Hv) as [Hp Hx].
+    destruct (ri_bounds g a tr R Hb) as (B1 & B2 & B3 & B4).
+    pose proof (ri_ph R t) as P. rewrite Hp in P.
+    rewrite (idx_cell tr pos Hb). pose proof (ri_seqb g a tr R pos).
+    split; [exact R|]. destruct Hc as [-> | [-> | [-> | ->]]]; cbn [phase_ok] in P; repeat split; try lia.
+  Qed.
+
+  Lemma safe_enq_loop fuel : forall t v pos lx,
+    safe t (enq_loop q fuel v pos) (EnqPos v pos, lx) (Qenq v lx).
+  Proof.
+    induction fuel as [|f IH]; intros t v pos lx; cbn [enq_loop Conc.safe]; [exact I|].
+    intros g a tr Hi Hv. cbn [a_ld_seq fst snd vz].
+    pose proof (enq_facts g a tr t v pos lx Hi Hv) as F.
+    set (idx := Z.land pos (qmask q)) in *. set (s := seqs g idx) in *.
+    destruct (sdif s pos) as [dif|] eqn:Ed.
+    2: { exists (set_ph a t PUB). split; [|split; [apply frame_set_ph|]].
+         - intros Hb. exfalso. destruct (F (bound_app _ _ Hb)) as (_ & F1 & F2 & F3 & F4 & F5 & _).
+           rewrite sdif_small in Ed by lia. discriminate.
+         - rewrite view_set_ph. destruct (view_inv _ _ _ _ Hv) as [_ Hx]. rewrite Hx. cbn. reflexivity. }
+    destruct (Z.eqb_spec dif 0) as [D0|D0].
+    - (* dif == 0: try to claim *)
+      assert (S := fun Hok => step_same g a tr t (EnqPos v pos) (EnqSeen v pos) lx KLd (obj_seq idx) true s s
+                                Hi Hv eq_refl I I eq_refl (fun x => x) (fun x => x) Hok).
+      use_step S.
+      { intros R Hb. destruct (F Hb) as (_ & F1 & F2 & F3 & F4 & F5 & F6). cbn [phase_ok].
+        rewrite sdif_small in Ed by lia. inversion Ed. rewrite <- F6. fold s. split; lia. }
+      clear F Hi Hv. cbn [Conc.safe]. intros g2 a2 tr2 Hi2 Hv2. unfold a_cas_posE.
+      destruct (Z.eqb_spec (posE g2) pos) as [E|E]; cbn [fst snd vok vz].
+      + exists (lin_ph a2 t (absq a2 ++ [v]) (EnqClaimed v pos)). split; [|split; [apply frame_lin_ph|]].
+        * intros Hb. destruct (view_inv _ _ _ _ Hv2) as [Hp2 _]. apply tr_enq_claim; auto.
+          apply Hi2. eapply bound_app; eauto.
+        * rewrite view_lin_ph. destruct (view_inv _ _ _ _ Hv2) as [_ Hx2]. rewrite Hx2. apply safe_enq_finish.
+      + assert (S := fun Hok => step_same g2 a2 tr2 t (EnqSeen v pos) (EnqPos v (posE g2)) lx KCas obj_posE false
+                                  (posE g2) (uadd u64 pos 1) Hi2 Hv2 eq_refl I I eq_refl (fun x => x) (fun x => x) Hok).
+        use_step S.
+        { intros R Hb. cbn [phase_ok]. destruct (ri_bounds g2 a2 tr2 R Hb). lia. }
+        apply IH.
+    - assert (S := fun Hok => step_same g a tr t (EnqPos v pos) (EnqPos v pos) lx KLd (obj_seq idx) true s s
+                                Hi Hv eq_refl I I eq_refl (fun x => x) (fun x => x) Hok).
+      use_step S.
+      { intros R Hb. destruct (F Hb) as (_ & F1 & _). cbn [phase_ok]. lia. }
+      clear F Hi Hv.
+      assert (Reload : safe t (Act a_ld_posE (fun p0 => enq_loop q f v (vz p0))) (EnqPos v pos, lx) (Qenq v lx)).
+      { cbn [Conc.safe]. intros g3 a3 tr3 Hi3 Hv3. cbn [a_ld_posE fst snd vz].
+        assert (S := fun Hok => step_same g3 a3 tr3 t (EnqPos v pos) (EnqPos v (posE g3)) lx KLd obj_posE true
+                                  (posE g3) (posE g3) Hi3 Hv3 eq_refl I I eq_refl (fun x => x) (fun x => x) Hok).
+        use_step S.
+        { intros R Hb. cbn [phase_ok]. destruct (ri_bounds g3 a3 tr3 R Hb). lia. }
+        apply IH. }
+      destruct (Z.ltb_spec dif 0) as [L|L]; [|exact Reload].
+      (* dif < 0: queue full? *)
+      cbn [Conc.safe]. intros g2 a2 tr2 Hi2 Hv2. cbn [a_ld_posD fst snd vz].
+      pose proof (enq_facts g2 a2 tr2 t v pos lx Hi2 Hv2) as F2.
+      destruct (usub u64 pos (posD g2) =? qcap q) eqn:Efull.
+      + assert (S := fun Hok => step_lp g2 a2 tr2 t (EnqPos v pos) (EnqFail v) (VEnq v) lx KLd obj_posD true
+                                  (posD g2) (posD g2) Hi2 Hv2 eq_refl I I eq_refl (fun x => x) (fun x => x) Hok).
+        use_step S.
+        { intros R Hb. destruct (F2 Hb) as (_ & G1 & G2 & G3 & G4 & _). cbn [phase_ok].
+          rewrite Hq in Efull. pose proof cap2.
+          rewrite usub_eqb in Efull by lia. apply Z.eqb_eq in Efull.
+          assert (Hl : (length (absq a2) <? capn)%nat = false).
+          { apply Nat.ltb_ge. pose proof (ri_len g2 a2 tr2 R). pose proof capn_cap. lia. }
+          cbn [vq_step bfifo_step]. rewrite Hl. cbn [fst snd stat_of]. auto. }
+        cbn. reflexivity.
+      + assert (S := fun Hok => step_same g2 a2 tr2 t (EnqPos v pos) (EnqPos v pos) lx KLd obj_posD true
+                                  (posD g2) (posD g2) Hi2 Hv2 eq_refl I I eq_refl (fun x => x) (fun x => x) Hok).
+        use_step S.
+        { intros R Hb. destruct (F2 Hb) as (_ & G1 & _). cbn [phase_ok]. lia. }
+        exact Reload.
+  Qed.
+
+  Lemma safe_enqueue fuel t v lx :
+    safe t (enqueue q fuel v) (PEnq v, lx) (Qenq v lx).
+  Proof.
+    unfold enqueue. cbn [Conc.safe]. intros g a tr Hi Hv. cbn [a_ld_posE fst snd vz].
+    assert (S := fun Hok => step_same g a tr t (PEnq v) (EnqPos v (posE g)) lx KLd obj_posE true
+                              (posE g) (posE g) Hi Hv eq_refl I I eq_refl (fun x => x) (fun x => x) Hok).
+    use_step S.
+    { intros R Hb. cbn [phase_ok]. destruct (ri_bounds g a tr R Hb). lia. }
+    apply safe_enq_loop.
+  Qed.
+
+
+  Lemma safe_deq_loop fuel : forall t pk pos lx,
+    safe t (deq_loop q fuel pos) (DeqPos pk pos, lx) (Qdeq pk lx).
+  Proof.
+    induction fuel as [|f IH]; intros t pk pos lx; cbn [deq_loop Conc.safe]; [exact I|].
+    intros g a tr Hi Hv. cbn [a_ld_seq fst snd vz].
+    assert (F := deq_facts g a tr t pos lx (DeqPos pk pos) Hi Hv ltac:(destruct pk; auto)).
+    set (idx := Z.land pos (qmask q)) in *. set (s := seqs g idx) in *.
+    destruct (sdif s (uadd u64 pos 1)) as [dif|] eqn:Ed.
+    2: { exists (set_ph a t PUB). split; [|split; [apply frame_set_ph|]].
+         - intros Hb. exfalso. destruct (F (bound_app _ _ Hb)) as (_ & F1 & F2 & F3 & F4 & F5 & _).
+           rewrite uadd1 in Ed by lia. rewrite sdif_small in Ed by lia. discriminate.
+         - rewrite view_set_ph. destruct (view_inv _ _ _ _ Hv) as [_ Hx]. rewrite Hx. cbn. reflexivity. }
+    destruct (Z.eqb_spec dif 0) as [D0|D0].
+    - assert (S := fun Hok => step_same g a tr t (DeqPos pk pos) (DeqSeen pk pos) lx KLd (obj_seq idx) true s s
+                                Hi Hv eq_refl I I eq_refl (fun x => x) (fun x => x) Hok).
+      use_step S.
+      { intros R Hb. destruct (F Hb) as (_ & F1 & F2 & F3 & F4 & F5 & F6). cbn [phase_ok].
+        rewrite uadd1 in Ed by lia. rewrite sdif_small in Ed by lia. inversion Ed. rewrite <- F6. fold s. split; lia. }
+      clear F Hi Hv. cbn [Conc.safe]. intros g2 a2 tr2 Hi2 Hv2. unfold a_cas_posD.
+      destruct (Z.eqb_spec (posD g2) pos) as [E|E]; cbn [fst snd vok vz vdata].
+      + exists (lin_ph a2 t (tl (absq a2)) (DeqClaimed pk pos (datas g2 (Z.land pos (qmask q))))).
+        split; [|split; [apply frame_lin_ph|]].
+        * intros Hb. destruct (view_inv _ _ _ _ Hv2) as [Hp2 _]. apply tr_deq_claim; auto.
+          apply Hi2. eapply bound_app; eauto.
+        * rewrite view_lin_ph. destruct (view_inv _ _ _ _ Hv2) as [_ Hx2]. rewrite Hx2. apply safe_deq_finish.
+      + assert (S := fun Hok => step_same g2 a2 tr2 t (DeqSeen pk pos) (DeqPos pk (posD g2)) lx KCas obj_posD false
+                                  (posD g2) (uadd u64 pos 1) Hi2 Hv2 eq_refl I I eq_refl (fun x => x) (fun x => x) Hok).
+        use_step S.
+        { intros R Hb. cbn [phase_ok]. destruct (ri_bounds g2 a2 tr2 R Hb). lia. }
+        apply IH.
+    - assert (S := fun Hok => step_same g a tr t (DeqPos pk pos) (DeqPos pk pos) lx KLd (obj_seq idx) true s s
+                                Hi Hv eq_refl I I eq_refl (fun x => x) (fun x => x) Hok).
+      use_step S.
+      { intros R Hb. destruct (F Hb) as (_ & F1 & _). cbn [phase_ok]. lia. }
+      clear F Hi Hv.
+      assert (Reload : safe t (Act a_ld_posD (fun p0 => deq_loop q f (vz p0))) (DeqPos pk pos, lx) (Qdeq pk lx)).
+      { cbn [Conc.safe]. intros g3 a3 tr3 Hi3 Hv3. cbn [a_ld_posD fst snd vz].
+        assert (S := fun Hok => step_same g3 a3 tr3 t (DeqPos pk pos) (DeqPos pk (posD g3)) lx KLd obj_posD true
+                                  (posD g3) (posD g3) Hi3 Hv3 eq_refl I I eq_refl (fun x => x) (fun x => x) Hok).
+        use_step S.
+        { intros R Hb. cbn [phase_ok]. destruct (ri_bounds g3 a3 tr3 R Hb). lia. }
+        apply IH. }
+      destruct (Z.ltb_spec dif 0) as [L|L]; [|exact Reload].
+      cbn [Conc.safe]. intros g2 a2 tr2 Hi2 Hv2. cbn [a_ld_posE fst snd vz].
+      assert (F2 := deq_facts g2 a2 tr2 t pos lx (DeqPos pk pos) Hi2 Hv2 ltac:(destruct pk; auto)).
+      destruct (usub u64 pos (posE g2) =? 0) eqn:Eempty.
+      + assert (S := fun Hok => step_lp g2 a2 tr2 t (DeqPos pk pos) (DeqRet pk None) (dop pk) lx KLd obj_posE true
+                                  (posE g2) (posE g2) Hi2 Hv2 eq_refl I I eq_refl (fun x => x) (fun x => x) Hok).
+        use_step S.
+        { intros R Hb. destruct (F2 Hb) as (_ & G1 & G2 & G3 & G4 & _). cbn [phase_ok].
+          rewrite usub_eqb in Eempty by lia. apply Z.eqb_eq in Eempty.
+          pose proof (ri_len g2 a2 tr2 R) as Hl.
+          destruct (absq a2) as [|x r]; [|cbn [length] in Hl; lia].
+          destruct pk; cbn; auto. }
+        cbn. reflexivity.
+      + assert (S := fun Hok => step_same g2 a2 tr2 t (DeqPos pk pos) (DeqPos pk pos) lx KLd obj_posE true
+                                  (posE g2) (posE g2) Hi2 Hv2 eq_refl I I eq_refl (fun x => x) (fun x => x) Hok).
+        use_step S.
+        { intros R Hb. destruct (F2 Hb) as (_ & G1 & _). cbn [phase_ok]. lia. }
+        exact Reload.
+  Qed.
+
+  Lemma safe_dequeue fuel t pk lx :
+    safe t (dequeue q fuel) (PDeq pk, lx) (Qdeq pk lx).
+  Proof.
+    unfold dequeue. cbn [Conc.safe]. intros g a tr Hi Hv. cbn [a_ld_posD fst snd vz].
+    assert (S := fun Hok => step_same g a tr t (PDeq pk) (DeqPos pk (posD g)) lx KLd obj_posD true
+                              (posD g) (posD g) Hi Hv eq_refl I I eq_refl (fun x => x) (fun x => x) Hok).
+    use_step S.
+    { intros R Hb. cbn [phase_ok]. destruct (ri_bounds g a tr R Hb). lia. }
+    apply safe_deq_loop.
+  Qed.
+
+  (** front(): linearization point at the sequence load that finds the cell of posDeq published (only the
+      single consumer moves posDeq, so the position read earlier is still current) *)
+  Lemma safe_front_loop fuel : forall t pos lx,
+    safe t (front_loop q fuel pos) (FrontPos pos, lx) (Qfront lx).
+  Proof.
+    induction fuel as [|f IH]; intros t pos lx; cbn [front_loop Conc.safe]; [exact I|].
+    intros g a tr Hi Hv. cbn [a_ld_seq fst snd vz vdata].
+    assert (F := deq_facts g a tr t pos lx (FrontPos pos) Hi Hv ltac:(auto)).
+    set (idx := Z.land pos (qmask q)) in *. set (s := seqs g idx) in *.
+    destruct (sdif s (uadd u64 pos 1)) as [dif|] eqn:Ed.
+    2: { exists (set_ph a t PUB). split; [|split; [apply frame_set_ph|]].
+         - intros Hb. exfalso. destruct (F (bound_app _ _ Hb)) as (_ & F1 & F2 & F3 & F4 & F5 & _).
+           rewrite uadd1 in Ed by lia. rewrite sdif_small in Ed by lia. discriminate.
+         - rewrite view_set_ph. destruct (view_inv _ _ _ _ Hv) as [_ Hx]. rewrite Hx. cbn. reflexivity. }
+    destruct (Z.eqb_spec dif 0) as [D0|D0].
+    - assert (S := fun Hok => step_lp g a tr t (FrontPos pos) (FrontRet (Some (datas g idx))) VFront lx KLd (obj_seq idx) true s s
+                                Hi Hv eq_refl I I eq_refl (fun x => x) (fun x => x) Hok).
+      use_step S.
+      { intros R Hb. destruct (F Hb) as (_ & F1 & F2 & F3 & F4 & F5 & F6). cbn [phase_ok].
+        rewrite uadd1 in Ed by lia. rewrite sdif_small in Ed by lia. inversion Ed.
+        destruct (view_inv _ _ _ _ Hv) as [Hp _].
+        pose proof (ri_ph R t) as P. rewrite Hp in P. cbn [phase_ok] in P.
+        assert (Hs : seqs g (cell pos) = pos + 1) by (rewrite <- F6; fold s; lia).
+        pose proof cap2.
+        assert (Hlt : posD g < posE g).
+        { destruct (Z_lt_ge_dec (posD g) (posE g)) as [L|L]; auto. exfalso.
+          destruct (ri_free g a tr R (posD g) ltac:(lia)) as [H'|[H' _]]; rewrite <- P in H'; lia. }
+        pose proof (ri_len g a tr R) as Hl.
+        destruct (absq a) as [|x r] eqn:Eq; [cbn [length] in Hl; lia|].
+        pose proof (ri_content g a tr R 0%nat) as Hc. rewrite Eq in Hc. specialize (Hc ltac:(cbn; lia)).
+        cbn in Hc. rewrite Z.add_0_r, <- P, <- F6 in Hc. inversion Hc.
+        split; [exact I|]. split; reflexivity. }
+      cbn. reflexivity.
+    - assert (S := fun Hok => step_same g a tr t (FrontPos pos) (FrontPos pos) lx KLd (obj_seq idx) true s s
+                                Hi Hv eq_refl I I eq_refl (fun x => x) (fun x => x) Hok).
+      use_step S.
+      { intros R Hb. destruct (view_inv _ _ _ _ Hv) as [Hp _].
+        pose proof (ri_ph R t) as P. rewrite Hp in P. exact P. }
+      clear F Hi Hv.
+      assert (Reload : safe t (Act a_ld_posD (fun p0 => front_loop q f (vz p0))) (FrontPos pos, lx) (Qfront lx)).
+      { cbn [Conc.safe]. intros g3 a3 tr3 Hi3 Hv3. cbn [a_ld_posD fst snd vz].
+        assert (S := fun Hok => step_same g3 a3 tr3 t (FrontPos pos) (FrontPos (posD g3)) lx KLd obj_posD true
+                                  (posD g3) (posD g3) Hi3 Hv3 eq_refl I I eq_refl (fun x => x) (fun x => x) Hok).
+        use_step S.
+        { intros R Hb. cbn [phase_ok]. reflexivity. }
+        apply IH. }
+      destruct (Z.ltb_spec dif 0) as [L|L]; [|exact Reload].
+      cbn [Conc.safe]. intros g2 a2 tr2 Hi2 Hv2. cbn [a_ld_posE fst snd vz].
+      assert (F2 := deq_facts g2 a2 tr2 t pos lx (FrontPos pos) Hi2 Hv2 ltac:(auto)).
+      destruct (usub u64 pos (posE g2) =? 0) eqn:Eempty.
+      + assert (S := fun Hok => step_lp g2 a2 tr2 t (FrontPos pos) (FrontRet None) VFront lx KLd obj_posE true
+                                  (posE g2) (posE g2) Hi2 Hv2 eq_refl I I eq_refl (fun x => x) (fun x => x) Hok).
+        use_step S.
+        { intros R Hb. destruct (F2 Hb) as (_ & G1 & G2 & G3 & G4 & _). cbn [phase_ok].
+          rewrite usub_eqb in Eempty by lia. apply Z.eqb_eq in Eempty.
+          pose proof (ri_len g2 a2 tr2 R) as Hl.
+          destruct (absq a2) as [|x r]; [|cbn [length] in Hl; lia].
+          cbn; auto. }
+        cbn. reflexivity.
+      + assert (S := fun Hok => step_same g2 a2 tr2 t (FrontPos pos) (FrontPos pos) lx KLd obj_posE true
+                                  (posE g2) (posE g2) Hi2 Hv2 eq_refl I I eq_refl (fun x => x) (fun x => x) Hok).
+        use_step S.
+        { intros R Hb. destruct (view_inv _ _ _ _ Hv2) as [Hp _].
+          pose proof (ri_ph R t) as P. rewrite Hp in P. exact P. }
+        exact Reload.
+  Qed.
+
+  Lemma safe_front fuel t lx :
+    safe t (front q fuel) (PFront, lx) (Qfront lx).
+  Proof.
+    unfold front. cbn [Conc.safe]. intros g a tr Hi Hv. cbn [a_ld_posD fst snd vz].
+    assert (S := fun Hok => step_same g a tr t PFront (FrontPos (posD g)) lx KLd obj_posD true
+                              (posD g) (posD g) Hi Hv eq_refl I I eq_refl (fun x => x) (fun x => x) Hok).
+    use_step S.
+    { intros R Hb. cbn [phase_ok]. reflexivity. }
+    apply safe_front_loop.
+  Qed.
+
+  (** empty(): read-only; no linearizability claim is made for it *)
+  Lemma safe_empty_loop fuel : forall t pos lx,
+    safe t (empty_loop q fuel pos) (EmPos pos, lx) (Qempty lx).
+  Proof.
+    induction fuel as [|f IH]; intros t pos lx; cbn [empty_loop Conc.safe]; [exact I|].
+    intros g a tr Hi Hv. cbn [a_ld_seq fst snd vz].
+    assert (F := deq_facts g a tr t pos lx (EmPos pos) Hi Hv ltac:(auto)).
+    set (idx := Z.land pos (qmask q)) in *. set (s := seqs g idx) in *.
+    destruct (sdif s (uadd u64 pos 1)) as [dif|] eqn:Ed.
+    2: { exists (set_ph a t PUB). split; [|split; [apply frame_set_ph|]].
+         - intros Hb. exfalso. destruct (F (bound_app _ _ Hb)) as (_ & F1 & F2 & F3 & F4 & F5 & _).
+           rewrite uadd1 in Ed by lia. rewrite sdif_small in Ed by lia. discriminate.
+         - rewrite view_set_ph. destruct (view_inv _ _ _ _ Hv) as [_ Hx]. rewrite Hx. cbn. reflexivity. }
+    assert (S := fun Hok => step_same g a tr t (EmPos pos) (EmPos pos) lx KLd (obj_seq idx) true s s
+                              Hi Hv eq_refl I I eq_refl (fun x => x) (fun x => x) Hok).
+    use_step S.
+    { intros R Hb. destruct (F Hb) as (_ & F1 & _). cbn [phase_ok]. lia. }
+    clear F Hi Hv.
+    destruct (Z.eqb_spec dif 0) as [D0|D0]; [cbn; eauto|].
+    assert (Reload : safe t (Act a_ld_posD (fun p0 => empty_loop q f (vz p0))) (EmPos pos, lx) (Qempty lx)).
+    { cbn [Conc.safe]. intros g3 a3 tr3 Hi3 Hv3. cbn [a_ld_posD fst snd vz].
+      assert (S := fun Hok => step_same g3 a3 tr3 t (EmPos pos) (EmPos (posD g3)) lx KLd obj_posD true
+                                (posD g3) (posD g3) Hi3 Hv3 eq_refl I I eq_refl (fun x => x) (fun x => x) Hok).
+      use_step S.
+      { intros R Hb. cbn [phase_ok]. destruct (ri_bounds g3 a3 tr3 R Hb). lia. }
+      apply IH. }
+    destruct (Z.ltb_spec dif 0) as [L|L]; [|exact Reload].
+    cbn [Conc.safe]. intros g2 a2 tr2 Hi2 Hv2. cbn [a_ld_posE fst snd vz].
+    assert (F2 := deq_facts g2 a2 tr2 t pos lx (EmPos pos) Hi2 Hv2 ltac:(auto)).
+    assert (S := fun Hok => step_same g2 a2 tr2 t (EmPos pos) (EmPos pos) lx KLd obj_posE true
+                              (posE g2) (posE g2) Hi2 Hv2 eq_refl I I eq_refl (fun x => x) (fun x => x) Hok).
+    use_step S.
+    { intros R Hb. destruct (F2 Hb) as (_ & G1 & _). cbn [phase_ok]. lia. }
+    destruct (usub u64 pos (posE g2) =? 0); [cbn; eauto|exact Reload].
+  Qed.
+
+  Lemma safe_empty fuel t lx :
+    safe t (empty q fuel) (PEmpty, lx) (Qempty lx).
+  Proof.
+    unfold empty. cbn [Conc.safe]. intros g a tr Hi Hv. cbn [a_ld_posD fst snd vz].
+    assert (S := fun Hok => step_same g a tr t PEmpty (EmPos (posD g)) lx KLd obj_posD true
+                              (posD g) (posD g) Hi Hv eq_refl I I eq_refl (fun x => x) (fun x => x) Hok).
+    use_step S.
+    { intros R Hb. cbn [phase_ok]. destruct (ri_bounds g a tr R Hb). lia. }
+    apply safe_empty_loop.
+  Qed.
+
+  Lemma safe_size t lx :
+    safe t (size q) (PIdle, lx) (fun _ l => l = (PIdle, lx)).
+  Proof.
+    unfold size. destruct (qcount q); cbn [Conc.safe]; [|reflexivity].
+    intros g a tr Hi Hv. cbn [a_ld_cnt fst snd vz].
+    assert (S := fun Hok => step_same g a tr t PIdle PIdle lx KLd obj_cnt true
+                              (cnt g) (cnt g) Hi Hv eq_refl I I eq_refl (fun x => x) (fun x => x) Hok).
+    use_step S.
+    { intros R Hb. exact I. }
+    cbn. reflexivity.
   Qed.
 
 End Core.
